@@ -501,10 +501,10 @@ def decl_src(d, tbl: Table) -> str:
     for nm, inner in nts:
         lines.append(f"{nm} = NewType({nm!r}, {inner})")
     if d["clsname"] != d["name"]:
-        lines.append(f"def _mk_{d['name']}():")
-        lines += ["    " + b for b in body]
-        lines.append(f"    return {d['clsname']}")
-        lines.append(f"{d['name']} = _mk_{d['name']}()")
+        # a second class with the same bare __name__ (e.g. the same name in two modules)
+        lines += [b.replace(f"class {d['clsname']}(", f"class {d['name']}(", 1) if b.startswith("class ") else b for b in body]
+        lines.append(f"{d['name']}.__name__ = {d['clsname']!r}")
+        lines.append(f"{d['name']}.__qualname__ = {d['clsname']!r}")
     else:
         lines += body
     return "\n".join(lines)
